@@ -103,4 +103,11 @@ CHECKS = {
                 "all universes of 2 (quick) / 3 (thorough) templates over 9 call/parameter items (all call graphs incl. cycles); all strings over a 24-symbol template alphabet up to length 4 / 5. Oracle: str result, no exception, CPU <= 2 s, output <= 64 x input + 4096.",
         "note": "argument shapes are a fixed list (incl. huge/negative/decimal/exponent numbers, power towers, paths, nested calls).",
     },
+    "C04": {
+        "engine": "input-enum", "category": "model_checking", "design_ref": "DESIGN.md §2 C04",
+        "technique": "bounded-exhaustive enumeration of #expr trees and template programs against reference interpreters written from the MediaWiki documentation",
+        "text": SMALL_SCOPE + "every #expr tree with <=2 operator nodes over 16 binary + 6 unary operators and 6 literals (thorough: + exactly 3 operator nodes over 3 literals), serialised with minimal and with full parentheses, compared numerically with mc/ref/expr_ref.py; "
+                "every (T1 body, T2 body, page construct, whitespace variant) of the template grammar (parameters, defaults, positional/named/duplicate bindings, nested calls, #if, #ifeq, #switch with fall-through and #default) compared as strings with mc/ref/tmpl_ref.py; brace-free text unchanged.",
+        "note": "the exhaustive bound is by size, not the statement's depth 5/4; undefined reference values (division by zero, negative mod operand) are skipped and counted; digit formatting is not compared.",
+    },
 }
